@@ -332,7 +332,9 @@ def stage_w_names(rep, rng, n, rctx):
         if name == 'within.splitext':
             return (d_str(r[0]), d_str(r[1]))
         return dec_res(r)
-    dis = [(c, iv, mv) for _, c, iv, mv in common.compare_model(rep, 'W:names', calls, res, dec, vm_limit=100) if mv != 'reparsed']
+    allv = common.compare_model(rep, 'W:names', calls, res, dec, vm_limit=100)
+    dis = [(c, iv, mv) for _, c, iv, mv in allv if mv != 'reparsed']
+    rep.stage('W:names', disagreements=len(dis), model_says_reparsed_not_compared=len(allv) - len(dis))
     return dis
 
 
@@ -506,6 +508,8 @@ def check_within_set(rep, d, paths, what):
     seen = {}
     fails = 0
     for rc, comps in paths:
+        if len(rep.violations) >= 25:
+            break                         # enough failing inputs reported
         if 'PAR' in comps:
             continue                      # the reserved name is excluded by the property
         p = build_path(rc, comps)
@@ -564,6 +568,177 @@ def stage_oracle_within(rep, rng, maxlen, nrandom):
     return fails
 
 
+# ----------------------------------------------------------------------------- system level: real configure
+SYS_NAMES = ['a', 'b', 'ab', 'cd', 'b1', 'b2', 'abc', 'a.b', 'x', 'PAr']
+SYS_EXTS = ['.c', '.c', '.c', '.cpp']
+
+
+def snapshot(root):
+    out = {}
+    for dp, dns, fns in os.walk(root):
+        for fn in fns + dns:
+            p = os.path.join(dp, fn)
+            st = os.lstat(p)
+            out[os.path.relpath(p, root)] = (st.st_size if not os.path.isdir(p) else -1, st.st_mtime_ns, st.st_mode)
+    return out
+
+
+def gen_project(rng):
+    """A project description: targets with near-colliding source sets, optional submodule."""
+    inter = rng.random() < 0.6
+    want_clash = rng.random() < 0.35
+    targets = []
+    counter = [0]
+
+    def sources(base, k):
+        out = []
+        stem0 = rng.choice(SYS_NAMES)
+        for _ in range(k):
+            r = rng.random()
+            dirs = [rng.choice(SYS_NAMES) for _ in range(rng.choice([0, 0, 1, 1, 2]))]
+            stem = stem0 if r < 0.5 else rng.choice(SYS_NAMES)
+            ext = rng.choice(SYS_EXTS)
+            up = base and rng.random() < 0.25
+            rel = (['..', 'other'] if up else []) + dirs + [stem + ext]
+            out.append(rel)
+        if want_clash and out and rng.random() < 0.7:
+            c = list(out[0])
+            c[-1] = posixpath.splitext(c[-1])[0] + ('.cpp' if c[-1].endswith('.c') else '.c')
+            out.append(c)
+        uniq = []
+        for o in out:
+            if o not in uniq:
+                uniq.append(o)
+        return uniq
+    depth = rng.choice([0, 1, 1, 2])
+    base = ['sub', 'deep'][:depth]
+    targets.append(([], 'executable', 'prog', sources([], rng.randint(2, 4))))
+    if rng.random() < 0.6:
+        targets.append(([], 'static_library', 'b', sources([], rng.randint(1, 3))))
+    if depth:
+        targets.append((base, rng.choice(['static_library', 'shared_library']), 's', sources(base, rng.randint(2, 4))))
+    return {'intermediate_dirs': inter, 'targets': [list(t) for t in targets], 'depth': depth}
+
+
+def write_project(proj, src):
+    n = 0
+    scripts = {}
+    for base, kind, name, srcs in proj['targets']:
+        lines = scripts.setdefault(tuple(base), [])
+        lines.append('%s(%r, files=%r)' % (kind, name, ['/'.join(s) for s in srcs]))
+        for s in srcs:
+            f = os.path.normpath(os.path.join(src, *base, *s))
+            os.makedirs(os.path.dirname(f), exist_ok=True)
+            if not os.path.exists(f):
+                n += 1
+                body = 'int f_%d(void) { return %d; }\n' % (n, n)
+                if kind == 'executable' and s == srcs[0]:
+                    body += 'int main(void) { return 0; }\n'
+                open(f, 'w').write(body)
+    depth = proj['depth']
+    chain = [['sub', 'deep'][:i] for i in range(depth + 1)]
+    for i, b in enumerate(chain):
+        lines = scripts.get(tuple(b), [])
+        if i == 0:
+            lines = ["project('p', intermediate_dirs=%r)" % proj['intermediate_dirs']] + lines
+        if i < depth:
+            lines.append('submodule(%r)' % chain[i + 1][-1])
+        os.makedirs(os.path.join(src, *b), exist_ok=True)
+        open(os.path.join(src, *b, 'build.bfg'), 'w').write('\n'.join(lines) + '\n')
+
+
+def predicted_clash(proj):
+    """Independent of the model: two compile steps whose (scope, path without extension) coincide."""
+    seen = set()
+    for base, kind, name, srcs in proj['targets']:
+        for s in srcs:
+            full = posixpath.normpath('/'.join(list(base) + s))
+            key = (posixpath.splitext(full)[0], ) + ((tuple(base), name) if proj['intermediate_dirs'] else ())
+            if key in seen:
+                return True
+            seen.add(key)
+    return False
+
+
+def classify_project(proj):
+    return ()
+
+
+def run_project(rep, proj, do_build):
+    d = common.scratch('c05s')
+    try:
+        src, bld = os.path.join(d, 'src'), os.path.join(d, 'build')
+        os.makedirs(src)
+        write_project(proj, src)
+        before = snapshot(src)
+        env = common.impl_env()
+        env['HOME'] = d
+        p = subprocess.run(['bfg9000', 'configure', bld, '--backend=make', '--no-resolve-packages'], cwd=src, env=env,
+                           capture_output=True, text=True, timeout=120)
+        out = p.stdout + p.stderr
+        clash = predicted_clash(proj)
+        nsrc = sum(len(t[3]) for t in proj['targets'])
+        rep.case('sys:' + json.dumps(proj, sort_keys=True), True)
+        rep.count('system:' + ('rejected' if p.returncode else 'configured'))
+        problems = []
+        if p.returncode != 0:
+            if 'already exists' not in out:
+                problems.append('configure failed without the duplicate-rule error: ' + out[-300:])
+            elif not clash:
+                problems.append('configure rejected a project whose sources all differ in a directory component or stem: ' + out[-200:])
+        else:
+            mk = open(os.path.join(bld, 'Makefile')).read()
+            objs = re.findall(r'^(\S+\.o): .*\$\(call RULE_C', mk, re.M)
+            if len(objs) != nsrc or len(set(objs)) != len(objs):
+                problems.append('%d sources but object rules %r' % (nsrc, objs))
+            if clash:
+                problems.append('two steps write one object but configure succeeded: %r' % objs)
+            for o in objs:
+                if o.startswith('/') or o.startswith('..') or o.startswith('$') or '/../' in o:
+                    problems.append('object outside the build directory: ' + o)
+            if do_build and do_build[0] > 0 and not problems:
+                do_build[0] -= 1
+                b = subprocess.run(['make', '-j4'], cwd=bld, env=env, capture_output=True, text=True, timeout=300)
+                if b.returncode != 0:
+                    problems.append('make failed: ' + (b.stdout + b.stderr)[-300:])
+                missing = [o for o in objs if not os.path.exists(os.path.join(bld, o))]
+                if missing:
+                    problems.append('objects not created below the build directory: %r' % missing)
+                if snapshot(src) != before:
+                    problems.append('the source directory changed during make')
+                subprocess.run(['make', 'clean'], cwd=bld, env=env, capture_output=True, text=True, timeout=120)
+                rep.count('system:built')
+        if snapshot(src) != before:
+            problems.append('the source directory changed: %r' % sorted(set(snapshot(src).items()) ^ set(before.items()))[:4])
+        extra = [x for x in os.listdir(d) if x not in ('src', 'build')]
+        if extra:
+            problems.append('files created outside source and build directory: %r' % extra)
+        for pr in problems:
+            rep.fail('system: ' + pr, {'kind': 'project', 'project': proj}, classes=classify_project(proj))
+        return len(problems)
+    finally:
+        shutil.rmtree(d, ignore_errors=True)
+
+
+# the DESIGN 7.1 input and its relatives: 2-character stems and directories, equal basenames in different
+# directories, a parent reference out of a submodule
+CORNER_PROJECT = {'intermediate_dirs': True, 'depth': 1, 'targets': [
+    [[], 'executable', 'prog', [['b1.c'], ['b2.c'], ['ab', 'x.c'], ['cd', 'x.c'], ['x.c']]],
+    [[], 'static_library', 'b', [['b1.c'], ['cd', 'b2.c'], ['ab', 'cd', 'y.c']]],
+    [['sub'], 'shared_library', 's', [['x.c'], ['..', 'other', 'x.c'], ['ab', 'y.c'], ['..', 'ab', 'y.c']]]]}
+
+
+def stage_system(rep, rng, nproj, nbuild):
+    bad = 0
+    left = [nbuild]
+    for inter in ((True, False) if nproj > 6 else (True, )):
+        bad += run_project(rep, dict(CORNER_PROJECT, intermediate_dirs=inter), left)
+    for i in range(nproj):
+        bad += run_project(rep, gen_project(rng), left)
+    rep.stage('system:configure(make backend)', projects=nproj, built_with_make=nbuild, failures=bad)
+    return bad
+
+
 # ----------------------------------------------------------------------------- run
 def load_corpus():
     out = []
@@ -597,6 +772,7 @@ def run(rep):
         found = stage_oracle_within(rep, rng, 4 if (thorough or dis) else 3, (n // 3) * (10 if dis else 1))
     finally:
         shutil.rmtree(scratch, ignore_errors=True)
+    found += stage_system(rep, rng, 40 if thorough else 6, 6 if thorough else 1)
     if dis and not found:
         st, call, iv, mv = dis[0]
         rep.fail('%s - model and implementation disagree (%d cases), e.g. %r: impl %r, model %r' % (st, len(dis), call, iv, mv),
@@ -615,5 +791,9 @@ def replay(rep, path):
         if check_within_set(rep, d, paths, 'replay'):
             return
         print('replayed input no longer fails')
+        return
+    if r.get('kind') == 'project':
+        if not run_project(rep, r['project'], [1]):
+            print('replayed project no longer fails')
         return
     run(rep)
